@@ -1,6 +1,7 @@
 package c08
 
 import (
+	"strings"
 	"testing"
 
 	"verifharness/bmx"
@@ -21,7 +22,21 @@ func TestC08(t *testing.T) {
 		"volatile block list and the block-device allocator with the CAS read buffer factory; non-trivial = at least one block released; distinct by script hash. " +
 		"Store level: the same corruption injected under real flat / hierarchical CAS stores (with and without a data integrity validation cache; the corrupting read " +
 		"consumed in every way a client can, incl. ReadAt of a range) and under AC stores (an entry that no longer parses: the read returns 0xff bytes), " +
-		"followed by a full turn-over of uploads that must all be accepted")
+		"followed by a full turn-over of uploads that must all be accepted. In addition (no model, oracle only): stores built by NewBlobAccessFromConfiguration " +
+		"with blocks on a file backed block device and the key-location map in memory or on a block device, a byte flipped in the backing file")
+	// stores built from configuration (oracle only): the wiring of new_blob_access.go
+	if name, script := run.ReplayScript(); script != nil && strings.HasPrefix(script[0], "#cq") {
+		cqCase(t, run, name, script)
+		return
+	}
+	if run.Replay == "" {
+		for name, script := range run.CorpusScripts() {
+			if strings.HasPrefix(script[0], "#cq") {
+				cqCase(t, run, "corpus/"+name, script)
+			}
+		}
+		cqCases(t, run, run.Scale(30, 400))
+	}
 	bmx.Main(run, model, "C08", 12, run.Report)
 	// the same property at the level of the blob access: a flipped byte on the medium is read through the real
 	// stores; objects at or below the quarantined block must no longer be served or reported present
